@@ -58,7 +58,11 @@ func c27expels(c *Ctx, point base.Point, nodes []base.LocalNode, n int) ([]base.
 	var ops []base.SuffrageExpelOperation
 	var facts []util.Hash
 	for i := 0; i < n; i++ {
-		f := isaac.NewSuffrageExpelFact(base.RandomAddress("x-"), point.Height()-1, point.Height()+base.Height(int64(c.Intn(5))), c27text(c, "no response"))
+		target := base.RandomAddress("x-")
+		if len(nodes) > 1 && c.Chance(1, 3) { // one of the signers is expelled: its own sign stays in the operation (and is not counted)
+			target = nodes[c.Intn(len(nodes))].Address()
+		}
+		f := isaac.NewSuffrageExpelFact(target, point.Height()-1, point.Height()+base.Height(int64(c.Intn(5))), c27text(c, "no response"))
 		op := isaac.NewSuffrageExpelOperation(f)
 		for _, nd := range nodes {
 			_ = op.NodeSign(nd.Privatekey(), hNetworkID, nd.Address())
